@@ -14,7 +14,6 @@ require (
 	github.com/cespare/xxhash/v2 v2.3.0 // indirect
 	github.com/dchest/cmac v1.0.0 // indirect
 	github.com/dustin/go-humanize v1.0.1 // indirect
-	github.com/google/gopacket v1.1.19 // indirect
 	github.com/google/uuid v1.6.0 // indirect
 	github.com/grpc-ecosystem/go-grpc-middleware v1.4.0 // indirect
 	github.com/grpc-ecosystem/go-grpc-prometheus v1.2.0 // indirect
@@ -27,7 +26,6 @@ require (
 	github.com/prometheus/procfs v0.16.0 // indirect
 	github.com/quic-go/quic-go v0.50.1 // indirect
 	github.com/remyoudompheng/bigfft v0.0.0-20230129092748-24d4a6f8daec // indirect
-	github.com/scionproto/scion v0.12.0 // indirect
 	github.com/uber/jaeger-client-go v2.30.0+incompatible // indirect
 	github.com/uber/jaeger-lib v2.4.1+incompatible // indirect
 	go.uber.org/atomic v1.11.0 // indirect
@@ -51,5 +49,7 @@ replace example.com/scion-time => /repo
 
 require (
 	github.com/anishathalye/porcupine v1.3.0
+	github.com/google/gopacket v1.1.19
 	github.com/miscreant/miscreant.go v0.0.0-20200214223636-26d376326b75
+	github.com/scionproto/scion v0.12.0
 )
